@@ -15,10 +15,10 @@ ADDR = 0x400100
 OBS = {f"x{i}" for i in range(31)} | {"sp", "n", "z", "c", "v"}
 
 
-def items_for(tier):
+def items_for(tier, seed=0):
     items = []
     T = tier == "thorough"
-    ws = AS.words(T)
+    ws = AS.words(T, random.Random(seed * 7919 + 17), 400 if not T else 3000)
     for arch in ("aarch64", "aarch64eb"):
         for lab, w in ws:
             mn = lab.split()[0]
@@ -46,7 +46,7 @@ def specfn(ctx, item, lift):
 def work(item):
     r = liftcheck.analyse(item["arch"], item["endian"], item, specfn, k=8,
                           timeout_ms=int(os.environ.get("VERIF_QUERY_MS", "12000" if common.tier() == "quick" else "60000")),
-                          observables=lambda n: n in OBS, flag_names=("n", "z", "c", "v"),
+                          observables=lambda n: n in OBS, k_is_bound=True, flag_names=("n", "z", "c", "v"),
                           groupfn=lambda n: f"flag-{n}" if n in ("n", "z", "c", "v") else None)
     r["mn"] = item["mn"]
     return r
@@ -99,7 +99,7 @@ def sig_of(item, f=None, status=None):
 def main():
     drv.build()
     rep = common.Report("C03", "translation_validation")
-    items = items_for(rep.tier)
+    items = items_for(rep.tier, rep.seed)
     results = common.pmap(work, items, chunksize=8)
     counts = {}
     for it, r in zip(items, results):
